@@ -8,12 +8,12 @@ MAP = [
     ('number_of_threads after construction', 'C04'), ('kept the last bootstrap sample', 'C04'),
     ('nested-logit generating function', 'C06'),
     ('scipy wrapper failed', 'C07'),
-    ('bootstrap p-value', 'C08'), ('compile_estimation_results', 'C08'), ('single parameter failed', 'C08'),
-    ('count_number_of_groups', 'C09'),
+    ('bootstrap p-value', 'C08'), ('compile_estimation_results', 'C08'), ('single parameter failed', 'C08'), ('processed again after their Hessian', 'C08'),
+    ('count_number_of_groups', 'C09'), ('before the map of individuals was rebuilt', 'C09'), ('draws were generated for the old number of individuals', 'C09'),
     ('declared with two different types', 'C10'),
     ('NORMAL_HALTON3', 'C11'),
     ('ComparisonOperator.audit', 'C12'), ('MultipleExpression.audit', 'C12'), ('Variable absent from the database', 'C12'),
-    ('draws outside MonteCarlo', 'C12'), ('pandas extension types', 'C12'), ('database emptied', 'C12'),
+    ('draws outside MonteCarlo', 'C12'), ('pandas extension types', 'C12'), ('database emptied', 'C12'), ('selected member of a catalog', 'C12'),
     ('Database.remove dropped rows', 'C13'), ('stale map of individuals', 'C13'), ('declared the data as panel before', 'C13'),
     ('unstable algorithm', 'C13'),
     ('Parameters.dump_file', 'C14'), ('invalid boolean', 'C14'), ('generate_flat_panel_dataframe', 'C14'), ('LaTeX report', 'C14'),
